@@ -81,6 +81,7 @@ type MapIter struct {
 	M       *MapObj
 	Visited map[*MapEntry]bool
 	StartN  int // m.seq at range start
+	Ordered bool // order-independent loop (static analysis): no fork over orders
 }
 
 type StrIter struct {
